@@ -38,8 +38,9 @@ NP_OF = {
     'C19': [('PlotCkTest', ['_split_array'])],
     'C05': [('MdCoringApi', ['dynamical_coring'])],
     'C20': [('UtilsFiltering', ['runningmean'])],
-    'C15': [('UtilsRelabel', ['unique', 'unique_counts', 'shift_data', 'rename_by_index', 'rename_by_population'])],
-    'C02': [('StateTrajInit', ['init'])],
+    'C15': [('UtilsRelabel', ['unique', 'unique_counts', 'shift_data', 'shift_data_1d', 'rename_by_index', 'rename_by_population'])],
+    'C02': [('StateTrajInit', ['init']), ('StateTrajAcc', ['states', 'nstates', 'ntrajs', 'nframes', 'index_trajs', 'index_trajs_flatten', 'trajs', 'trajs_flatten']),
+            ('LumpedAcc', ['microstate_trajs', 'microstate_trajs_flatten', 'state_assignment_idx', 'trajs', 'index_trajs', 'init'])],
     'C17': [('StateTrajInit', ['init']), ('UtilsRelabel', ['rename_by_index'])],
     'C16': [('IoLimits', ['open_limits_file'])],
     'C06': [('MdTimesApi', ['estimate_waiting_times', 'estimate_paths'])],
@@ -54,7 +55,7 @@ SOURCE_OF = {'MsmMsm': 'msm/msm.py', 'MdCorrections': 'md/corrections.py', 'MdTi
              'MsmTimescales': 'msm/timescales.py', 'MdComparison': 'md/comparison.py', 'UtilsUtils': 'utils/_utils.py',
              'UtilsTests': 'utils/tests.py', 'MsmNorm': 'msm/msm.py', 'PlotCkTest': 'plot/_ck_test.py', 'MsmTests': 'msm/tests.py',
              'StateTrajHS': 'statetraj.py', 'MsmCummat': 'msm/timescales.py', 'MsmTimes': 'msm/timescales.py', 'StateTrajBase': 'statetraj.py',
-             'UtilsRelabel': 'utils/_utils.py', 'StateTrajInit': 'statetraj.py', 'MsmEstimate': 'msm/msm.py', 'MsmMcmcApi': 'msm/timescales.py', 'UtilsFiltering': 'utils/filtering.py', 'IoLimits': 'io.py',
+             'UtilsRelabel': 'utils/_utils.py', 'StateTrajInit': 'statetraj.py', 'StateTrajAcc': 'statetraj.py', 'LumpedAcc': 'statetraj.py', 'MsmEstimate': 'msm/msm.py', 'MsmMcmcApi': 'msm/timescales.py', 'UtilsFiltering': 'utils/filtering.py', 'IoLimits': 'io.py',
              'MdCompareApi': 'md/comparison.py', 'MdTimesApi': 'md/timescales.py', 'MdCoringApi': 'md/corrections.py'}
 ATOL = 1e-8
 G = 1 << 53
@@ -224,6 +225,17 @@ def gen_cases(module, kernel, rng, n):
             else:
                 yield {'k': kernel, 'args': None, 'trajs': trajs, 'lag': rng.choice([-1, 0, 1, 2, 2, 3, 3, 4]), 'iterative': rng.random() < 0.5,
                        'lumped': rng.random() < 0.08, 'mode': 'py'}
+        elif module in ('StateTrajAcc', 'LumpedAcc'):
+            ns_ = rng.randint(1, 6)
+            cls = rng.choice(['zero', 'one', 'gapped', 'negative', 'unsorted'])
+            labs = list(range(ns_)) if cls == 'zero' else (list(range(1, ns_ + 1)) if cls == 'one' else rng.sample(range(-40 if cls != 'gapped' else 0, 60), ns_))
+            idx = [[rng.randrange(ns_) for _ in range(rng.randint(1, 9))] for _ in range(rng.randint(1, 3))]
+            micro = [[labs[i] for i in t] for t in idx]
+            nm_ = rng.randint(1, ns_)
+            ml = rng.sample(range(-9, 50), nm_) if rng.random() < 0.6 else (list(range(nm_)) if rng.random() < 0.5 else list(range(1, nm_ + 1)))
+            asg = [rng.randrange(nm_) for _ in range(ns_)]
+            macro = [[ml[asg[i]] for i in t] for t in idx]
+            yield {'k': kernel, 'args': None, 'micro': micro, 'macro': macro, 'positive': rng.random() < 0.5, 'mode': 'py'}
         elif module in ('UtilsRelabel', 'StateTrajInit'):
             ns_ = rng.randint(1, 6)
             cls = rng.choice(['zero', 'one', 'gapped', 'negative', 'negative', 'unsorted'])
@@ -236,8 +248,10 @@ def gen_cases(module, kernel, rng, n):
             trajs = [[rng.choice(labs) for _ in range(rng.randint(0 if rng.random() < 0.1 else 1, 10))] for _ in range(rng.randint(1, 3))]
             if not any(trajs):
                 trajs[0] = [labs[0]]
-            if kernel == 'shift_data':
-                occ = sorted({x for t in trajs for x in t})
+            if kernel == 'shift_data_1d':
+                trajs = trajs[0] or [labs[0]]
+            if kernel in ('shift_data', 'shift_data_1d'):
+                occ = sorted({x for t in (trajs if kernel == 'shift_data' else [trajs]) for x in t})
                 kind = rng.random()
                 if kind < 0.5:
                     old = rng.sample(occ, rng.randint(1, len(occ)))
@@ -425,6 +439,44 @@ def real_one(module, case):
         inputs, fn = None, None
         if module != 'StateTrajBase':
             fn = getattr(mod, 'runningmean' if module == 'UtilsFiltering' else 'open_limits')
+    elif module in ('StateTrajAcc', 'LumpedAcc'):
+        import msmhelper as mh
+        fn = None
+
+        def to_l(v):
+            v = np.asarray(v) if not isinstance(v, list) else v
+            if isinstance(v, list):
+                return [[int(x) for x in t] for t in v]
+            return [int(x) for x in v] if v.ndim else int(v)
+        try:
+            micro = [np.array(t, dtype=np.int64) for t in case['micro']]
+            if module == 'StateTrajAcc':
+                o1 = mh.StateTraj(micro)
+                priv = {'_trajs': to_l(o1._trajs), '_states': to_l(o1._states)}
+                need = {'states': ['_states'], 'nstates': ['_states'], 'ntrajs': ['_trajs'], 'nframes': ['_trajs'], 'index_trajs': ['_trajs'],
+                        'index_trajs_flatten': ['_trajs'], 'trajs': ['_trajs', '_states'], 'trajs_flatten': ['_trajs', '_states']}[case['k']]
+                inputs = {'args': [priv[n_] for n_ in need]}
+                case = dict(case, _run=lambda: to_l(getattr(o1, case['k'])))
+            elif case['k'] == 'init':
+                macro = [np.array(t, dtype=np.int64) for t in case['macro']]
+                inputs = {'args': [case['macro'], case['micro'], bool(case['positive'])]}
+
+                def _run():
+                    o2 = mh.LumpedStateTraj(macro, micro, positive=case['positive'])
+                    return [bool(o2.positive), to_l(o2._macrostates), to_l(o2._trajs), to_l(o2._states), to_l(o2._state_assignment)]
+                case = dict(case, _run=_run)
+            else:
+                macro = [np.array(t, dtype=np.int64) for t in case['macro']]
+                o2 = mh.LumpedStateTraj(macro, micro)
+                priv = {'_trajs': to_l(o2._trajs), '_states': to_l(o2._states), '_macrostates': to_l(o2._macrostates), '_state_assignment': to_l(o2._state_assignment)}
+                need = {'microstate_trajs': ['_trajs', '_states', '_macrostates'], 'microstate_trajs_flatten': ['_trajs', '_states', '_macrostates'],
+                        'state_assignment_idx': ['_macrostates', '_state_assignment'], 'trajs': ['_trajs', '_states', '_state_assignment'],
+                        'index_trajs': ['_trajs', '_states', '_macrostates', '_state_assignment']}[case['k']]
+                inputs = {'args': [priv[n_] for n_ in need]}
+                attr = '_state_assignment_idx' if case['k'] == 'state_assignment_idx' else case['k']
+                case = dict(case, _run=lambda: to_l(getattr(o2, attr)))
+        except Exception as e:  # noqa
+            return {'skip': core.err_name(e)}
     elif module in ('MdCompareApi', 'MdTimesApi', 'MdCoringApi'):
         import msmhelper as mh
         flag = bool(numba.config.DISABLE_JIT)
@@ -585,7 +637,7 @@ def real_one(module, case):
             return int(mh.StateTraj([np.array(a[0], dtype=np.int64)]).state_to_idx(a[1]))
         if module in ('UtilsRelabel', 'StateTrajInit'):
             import msmhelper as mh
-            arrs = [np.array(t, dtype=np.int64) for t in a[0]]
+            arrs = [np.array(t, dtype=np.int64) for t in a[0]] if k != 'shift_data_1d' else None
             if module == 'StateTrajInit':
                 o = mh.StateTraj(arrs)
                 return [[[int(x) for x in t] for t in o._trajs], [int(x) for x in o._states]]
@@ -596,6 +648,8 @@ def real_one(module, case):
                 return [[int(x) for x in u], [int(x) for x in c]]
             if k == 'shift_data':
                 return [[int(x) for x in t] for t in mh.shift_data(arrs, a[1], a[2])]
+            if k == 'shift_data_1d':
+                return [int(x) for x in mh.shift_data(np.array(a[0], dtype=np.int64), a[1], a[2])]
             fn_ = mh.rename_by_index if k == 'rename_by_index' else mh.rename_by_population
             r, perm = fn_(arrs, return_permutation=True)
             return [[[int(x) for x in t] for t in r], [int(x) for x in perm]]
@@ -624,7 +678,7 @@ def real_one(module, case):
                 return [int(v) for v in mod.propagate_MCMC(mh.StateTraj([np.array(a[0], dtype=np.int64)]), a[1], a[2], start=a[3])]
             finally:
                 mod._get_cummat, mod._propagate_MCMC, np.random.choice = o_cm, o_pr, o_ch
-        if module in ('MsmTimes', 'MdCompareApi', 'MdTimesApi', 'MdCoringApi'):
+        if module in ('MsmTimes', 'MdCompareApi', 'MdTimesApi', 'MdCoringApi', 'StateTrajAcc', 'LumpedAcc'):
             return case['_run']()
         if module == 'MsmCummat':
             # the function estimates its matrix from trajectories: feed the chosen matrix through a stub of the estimator
@@ -777,6 +831,14 @@ def same(case, real, gen):
                 if abs(fx - fy) > Fraction(1, 10 ** 14):
                     return False
         return True
+    if k == 'init' and case.get('macro') is not None:
+        flat = []
+        cur = g
+        while isinstance(cur, list) and len(cur) == 2 and len(flat) < 4:      # right-nested pairs of the Lean tuple
+            flat.append(cur[0])
+            cur = cur[1]
+        flat.append(cur)
+        return r == flat
     if k == 'runningmean':
         return len(r) == len(g) and all(abs(Fraction(x) - Fraction(y)) <= Fraction(1, 10 ** 13) for x, y in zip(r, g))
     if k.startswith('estimate_markov_model_'):
